@@ -24,11 +24,9 @@ Inductive origin := OTop | OFn (c : option cls).
 Inductive role :=
 | RIdent                    (* table / schema / column name *)
 | RAlias                    (* alias of a term or table; GROUP BY / ORDER BY reference to a selected alias *)
-| RAliasC                   (* alias of a BasicCriterion: quote_char does not reach format_alias_sql *)
-| RAliasQ                   (* _SetOperation ORDER BY reference to a selected alias: format_quotes(alias, quote_char) *)
 | RQual                     (* a table's ALIAS used as the qualifier of a column (Field / Star namespace): quote_char *)
-| RQAlias (inner : cls)     (* alias of a sub-query built by class [inner] *)
-| RSAlias                   (* alias of a set operation used as a source: format_alias_sql with the incoming kwargs *)
+| RQAlias (inner : cls)     (* alias of a sub-query (or set operation) built by class [inner]: query_alias_quote_char *)
+| RTAlias                   (* alias of the term-level stand-in sub-query TSub: quote_char *)
 | RCte.                     (* name of a WITH clause and references to it: rendered bare by every class *)
 
 Inductive atok :=
@@ -122,7 +120,7 @@ Fixpoint ttoks (c : ctx) (og : origin) (t : term) {struct t} : res (list dtok) :
   | TLit raw alias => Ok (alias_toks c og (q c) [T raw] alias)
   | TParam txt => Ok [T txt]
   | TNeg t' =>
-      s0 <- ttoks (opc SNeg t' c) og t' ;;
+      s0 <- ttoks (opc SNeg t' (set_wa c false)) og t' ;;
       let s := topnd SNeg t' s0 in
       Ok (T "-" :: mparen (match t' with TArith _ _ _ _ => neg_parens_arith | TNeg _ => neg_parens_neg | _ => false end)
                           (neg_parens_minus && starts_minus (tflat s)) s)
@@ -139,25 +137,28 @@ Fixpoint ttoks (c : ctx) (og : origin) (t : term) {struct t} : res (list dtok) :
       let c' := set_wa c false in
       a0 <- ttoks (opc SCmpL l c') og l ;; b0 <- ttoks (opc SCmpR r c') og r ;;
       let s := topnd SCmpL l a0 ++ T (cmp_text cm) :: topnd SCmpR r b0 in
-      Ok (if wa c then falias RAliasC og s alias None (aq c) (askw c) else s)
+      Ok (if wa c then alias_toks c og (q c) s alias else s)
   | TCplx bo l r alias =>
-      a <- ttoks (set_subc c (needs_brackets_x bo (top_bop l))) og l ;;
-      b <- ttoks (set_subc c (needs_brackets_x bo (top_bop r))) og r ;;
-      Ok (tparen (subc c) (a ++ T (" " ++ bop_text_x bo ++ " ") :: b))
+      let c' := set_wa c false in
+      a <- ttoks (set_subc c' (needs_brackets_x bo (top_bop l))) og l ;;
+      b <- ttoks (set_subc c' (needs_brackets_x bo (top_bop r))) og r ;;
+      let s := tparen (subc c) (a ++ T (" " ++ bop_text_x bo ++ " ") :: b) in
+      Ok (if wa c then alias_toks c og (q c) s alias else s)
   | TIn t' cont negated alias =>
-      a <- ttoks (opc SInTerm t' (set_subq c false)) og t' ;; b <- ttoks (set_subq c true) og cont ;;
+      a <- ttoks (opc SInTerm t' (set_wa (set_subq c false) false)) og t' ;; b <- ttoks (set_wa (set_subq c true) false) og cont ;;
       Ok (alias_toks c og (q c) (topnd SInTerm t' a ++ T (" " ++ (if negated then "NOT " else "") ++ "IN ") :: b) alias)
   | TBetween t' lo hi alias =>
-      a <- ttoks (opc SBetTerm t' c) og t' ;; b <- ttoks (opc SBetLo lo c) og lo ;; d <- ttoks (opc SBetHi hi c) og hi ;;
+      let c' := set_wa c false in
+      a <- ttoks (opc SBetTerm t' c') og t' ;; b <- ttoks (opc SBetLo lo c') og lo ;; d <- ttoks (opc SBetHi hi c') og hi ;;
       Ok (alias_toks c og (q c) (topnd SBetTerm t' a ++ T " BETWEEN " :: topnd SBetLo lo b ++ T " AND " :: topnd SBetHi hi d) alias)
   | TBitAnd t' v alias =>
-      a <- ttoks c og t' ;; Ok (alias_toks c og (q c) (T "(" :: a ++ [T (" & " ++ v ++ ")")]) alias)
+      a <- ttoks (set_wa c false) og t' ;; Ok (alias_toks c og (q c) (T "(" :: a ++ [T (" & " ++ v ++ ")")]) alias)
   | TIsNull t' alias =>
       a <- ttoks (opc SIsNull t' (set_wa c false)) og t' ;; Ok (alias_toks c og (q c) (topnd SIsNull t' a ++ [T " IS NULL"]) alias)
   | TNotNull t' alias =>
       a <- ttoks (opc SNotNull t' (set_wa c false)) og t' ;; Ok (alias_toks c og (q c) (topnd SNotNull t' a ++ [T " IS NOT NULL"]) alias)
-  | TNot t' alias => a <- ttoks (set_subc c true) og t' ;; Ok (alias_toks (set_subc c true) og (q c) (T "NOT " :: a) alias)
-  | TAll t' alias => a <- ttoks c og t' ;; Ok (alias_toks c og (q c) (a ++ [T " ALL"]) alias)
+  | TNot t' alias => a <- ttoks (set_wa (set_subc c true) false) og t' ;; Ok (alias_toks (set_subc c true) og (q c) (T "NOT " :: a) alias)
+  | TAll t' alias => a <- ttoks (set_wa c false) og t' ;; Ok (alias_toks c og (q c) (a ++ [T " ALL"]) alias)
   | TEmpty => Err "TypeError"
   | TCase ws els alias =>
       let c' := set_wa c false in
@@ -170,12 +171,12 @@ Fixpoint ttoks (c : ctx) (og : origin) (t : term) {struct t} : res (list dtok) :
         Ok (if wa c then alias_toks c og (q c) s alias else s)
       end
   | TFunc name args special alias =>
-      ss <- ttoks_list (fctx c) (OFn None) args ;;
+      ss <- ttoks_list (fctx c) og args ;;
       let s := T (name ++ "(") :: tjoin "," ss ++ [T ((match special with Some sp => " " ++ sp | None => "" end) ++ ")")] in
       Ok (if wa c then alias_toks c og (q c) s alias else s)
-  | TTuple vs alias => ss <- ttoks_list c og vs ;; Ok (alias_toks c og (q c) (T "(" :: tjoin "," ss ++ [T ")"]) alias)
+  | TTuple vs alias => ss <- ttoks_list (set_wa c false) og vs ;; Ok (alias_toks c og (q c) (T "(" :: tjoin "," ss ++ [T ")"]) alias)
   | TArray vs alias =>
-      ss <- ttoks_list c og vs ;;
+      ss <- ttoks_list (set_wa c false) og vs ;;
       let body := tjoin "," ss in
       let s := if is_pg (dia c)
                then (match tflat body with
@@ -186,7 +187,7 @@ Fixpoint ttoks (c : ctx) (og : origin) (t : term) {struct t} : res (list dtok) :
   | TSub col tbl alias =>
       let body := [T "SELECT "; (false, AId RIdent (q c) col og); T " FROM "; (false, AId RIdent (q c) tbl og)] in
       let s := tparen (subq c) body in
-      Ok (if wa c then falias (RQAlias CQuery) og s alias (q c) None (askw c) else s)
+      Ok (if wa c then falias RTAlias og s alias (q c) None (askw c) else s)
   end
 with ttoks_list (c : ctx) (og : origin) (l : tlist) {struct l} : res (list (list dtok)) :=
   match l with
@@ -237,10 +238,8 @@ Definition alias_ref (selects : list item) (y : item) : option string :=
 
 (* scope of a SELECT / UPDATE / DELETE: names of the sources and the with_namespace decision (as in Query.rquery) *)
 Definition foreign_ref (srcs scope : list tref) (wheres : option item) : bool :=
-  match wheres with
-  | Some (IT w) => existsb (fun o => match o with Some tb => negb (existsb (tref_eqb (resolve_tref srcs tb)) scope) | None => false end)
-                           (field_tables w)
-  | _ => false end.
+  existsb (fun o => match o with Some tb => negb (existsb (tref_eqb (resolve_tref srcs tb)) scope) | None => false end)
+          (match wheres with Some w => item_tables w | None => [] end).
 Definition first_is_builder (from : list source) : bool := match from with SrcQ y :: _ => is_builder y | _ => false end.
 
 Section Open.
@@ -264,7 +263,7 @@ Definition item_toks (k : kctx) (og : origin) (srcs : list tref) (c : ctx) (i : 
       b <- qt (with_c k (set_wa c false)) og false (subq c) false (qalias x) x ;;
       Ok (a ++ T (cmp_text cm) :: b)
   | IFunc name args alias =>
-      ss <- rmapM (it (fk (with_c k c)) (OFn None) srcs (kc (fk (with_c k c)))) args ;;
+      ss <- rmapM (it (fk (with_c k c)) og srcs (kc (fk (with_c k c)))) args ;;
       let s := T (name ++ "(") :: tjoin "," ss ++ [T ")"] in
       Ok (if wa c then alias_toks c og (q c) s alias else s)
   | ICplx bo l r =>
@@ -305,8 +304,7 @@ Definition gitem_toks (kk : kctx) (og : origin) (srcs : list tref) (cx base : ct
   : res (list dtok) :=
   a <- (match (if gba then alias_ref selects y else None) with
         | Some a => Ok [(false, AId RAlias (or_ostr (aq base) (q base)) a og)]
-        (* _group_sql consumes groupby_alias as a named parameter: a sub-query below it sees the default *)
-        | None => it (mk_k (kc kk) (k_abs kk) true) og srcs cx y end) ;;
+        | None => it kk og srcs cx y end) ;;
   Ok (mark_group a).
 Definition group_toks (kk : kctx) (og : origin) (srcs : list tref) (cx base : ctx) (gba : bool) (selects groupbys : list item)
   : res (list dtok) :=
@@ -333,7 +331,7 @@ Definition qsel_toks (kin : kctx) (og0 : origin) (walias subquery pv : bool) (al
   let k := defaults c kin in
   let og := origin_after c kin og0 in
   let fnames := fst (name_from sub_count 0 from) in
-  let jnames := fst (name_joins (base_tables from) (snd (name_from sub_count 0 from)) joins) in
+  let jnames := fst (name_joins (base_tables from) (src_names from fnames ++ map fst withs) (snd (name_from sub_count 0 from)) joins) in
   let srcs := src_refs from fnames ++ src_refs (map (fun j => snd (fst j)) joins) jnames in
   let wns := negb (Nat.eqb (List.length joins) 0) || Nat.ltb 1 (List.length from)
              || first_is_builder from || foreign_ref srcs srcs wheres in
@@ -355,7 +353,7 @@ Definition qsel_toks (kin : kctx) (og0 : origin) (walias subquery pv : bool) (al
                 ++ (match fr with [] => [] | _ => T " FROM " :: tjoin "," fr end)
                 ++ (match js with [] => [] | _ => T " " :: tjoin " " js end)
                 ++ wh ++ gb ++ hv ++ ob ++ page_toks_v c KSelect l o ++ (if fu then [T " FOR UPDATE"] else []) in
-    Ok (if walias then falias (RQAlias c) og (vparen subquery pv body) ali (q base) (qalias_quote c) (askw base)
+    Ok (if walias then falias (RQAlias c) og (vparen subquery pv body) ali (q base) (k_qaq k) (askw base)
         else vparen subquery pv body)
   end.
 
@@ -374,14 +372,14 @@ Definition qins_toks (kin : kctx) (og0 : origin) (walias subquery pv : bool) (al
   match rows, sel with
   | [], None => Ok []
   | _ :: _, _ =>
-      rs <- rmapM (fun row => vs <- rmapM (it kk og [] (set_subq (set_wa base true) true)) row ;; Ok (tjoin "," vs)) rows ;;
+      rs <- rmapM (fun row => vs <- rmapM (it kk og [] (set_subq (set_wa base false) true)) row ;; Ok (tjoin "," vs)) rows ;;
       Ok (head ++ cols ++ T " VALUES (" :: tjoin "),(" rs ++ [T ")"])
   | [], Some y =>
       (* QueryBuilder.get_sql: an INSERT whose SELECT part selects nothing renders as the empty string *)
       if Nat.eqb (nselects y) 0 then Ok [] else
       s <- qt kk og false false false (qalias y) y ;;
       let body := vparen subquery pv (head ++ cols ++ T " " :: s) in
-      Ok (if walias then falias (RQAlias c) og body ali (q base) (qalias_quote c) (askw base) else body)
+      Ok (if walias then falias (RQAlias c) og body ali (q base) (k_qaq k) (askw base) else body)
   end.
 
 Definition qupd_toks (kin : kctx) (og0 : origin) (c0 : cls) (tbl : tref) (sets : list (term * item)) (from : list source)
@@ -390,7 +388,7 @@ Definition qupd_toks (kin : kctx) (og0 : origin) (c0 : cls) (tbl : tref) (sets :
   let k := defaults c kin in
   let og := origin_after c kin og0 in
   let fnames := fst (name_from sub_count 0 from) in
-  let jnames := fst (name_joins (tbl :: base_tables from) (snd (name_from sub_count 0 from)) joins) in
+  let jnames := fst (name_joins (tbl :: base_tables from) (tref_name tbl :: src_names from fnames) (snd (name_from sub_count 0 from)) joins) in
   let srcs := src_refs from fnames ++ src_refs (map (fun j => snd (fst j)) joins) jnames in
   let wns := negb (Nat.eqb (List.length joins) 0) || Nat.ltb 1 (List.length from)
              || first_is_builder from || foreign_ref srcs (tbl :: srcs) wheres || negb (Nat.eqb (List.length from) 0) in
@@ -435,7 +433,7 @@ Definition sitem_toks (c : ctx) (og0 : origin) (selected_aliases : list (option 
   : res (list dtok) :=
   a <- (match term_alias (fst td) with
         | Some a => if truthy_ostr (Some a) && existsb (option_eqb String.eqb (Some a)) selected_aliases
-                    then Ok [(false, AId RAliasQ (q c) a og0)]
+                    then Ok [(false, AId RAlias (or_ostr (aq c) (q c)) a og0)]
                     else ttoks (set_wa c false) og0 (fst td)
         | None => ttoks (set_wa c false) og0 (fst td) end) ;;
   Ok (match snd td with Some d' => a ++ [T (" " ++ order_text d')] | None => a end).
@@ -444,22 +442,29 @@ Definition qset_toks (kin : kctx) (og0 : origin) (walias subquery pv : bool) (al
            (base : query) (ops : list (setop * query)) (orderbys : list (term * option order)) (l o : option Z)
   : res (list dtok) :=
   let bc := base_cls_of rho base in
+  (* _SetOperation.get_sql: every default comes from the base query's class *)
+  let k := defaults bc kin in
+  let og := origin_after bc kin og0 in
   let wrap := cls_wrap bc in
-  b <- qt kin og0 false wrap true (qalias base) base ;;
+  b <- qt k og false wrap true (qalias base) base ;;
   rest <- rmapM (fun sy : setop * query =>
-                   a <- qt kin og0 false wrap true (qalias (snd sy)) (snd sy) ;;
+                   a0 <- qt k og false wrap true (qalias (snd sy)) (snd sy) ;;
+                   (* operands not parenthesised: a nested set operation keeps its grouping as a derived table (vendor form) *)
+                   let a := match snd sy with
+                            | QSet _ _ _ _ _ _ => if wrap then a0 else V "SELECT * FROM (" :: a0 ++ [V ")"]
+                            | _ => a0 end in
                    (if Nat.eqb (nselects base) (nselects (snd sy))
                     then Ok (T (" " ++ setop_text (fst sy) ++ " ") :: a)
                     else Err "SetOperationException")) ops ;;
-  let c := kc kin in
+  let c := kc k in
   let selected_aliases := match base with
                           | QSel _ _ _ sels _ _ _ _ _ _ _ _ _ _ => map item_alias sels
                           | _ => [] end in
   ob <- (match orderbys with
          | [] => Ok []
-         | _ => os <- rmapM (sitem_toks c og0 selected_aliases) orderbys ;; Ok (T " ORDER BY " :: tjoin "," os) end) ;;
-  let body := vparen subquery pv (b ++ List.concat rest ++ ob ++ page_toks_v bc KSetOp l o) in
-  Ok (if walias then falias RSAlias og0 body ali (q c) (aq c) (askw c) else body).
+         | _ => os <- rmapM (sitem_toks c og selected_aliases) orderbys ;; Ok (T " ORDER BY " :: tjoin "," os) end) ;;
+  let body := vparen subquery pv (b ++ List.concat rest ++ ob ++ page_toks_v bc KSelect l o) in
+  Ok (if walias then falias (RQAlias bc) og body ali (q c) (k_qaq k) (askw c) else body).
 
 Definition query_toks (kin : kctx) (og0 : origin) (walias subquery pv : bool) (ali : option string) (x : query)
   : res (list dtok) :=
@@ -499,13 +504,8 @@ Definition top_cls_r (x : query) : cls :=
   | QSet _ _ _ _ _ _ => CQuery
   | _ => base_cls x
   end.
-Definition setop_top_ctx (c : cls) : kctx :=
-  mk_k {| q := cls_q c; sq := Some "'"; aq := None; askw := false; dia := cls_dia c; wa := false; wn := false;
-          subq := false; subc := false |} true true.
-Definition top_k (x : query) : kctx :=
-  match x with QSet _ _ _ _ _ _ => setop_top_ctx (top_cls_r x) | _ => top_ctx (top_cls_r x) end.
-(* for a top-level set operation the three alias/literal keys are absent: each operand supplies its own *)
-Definition top_origin (x : query) : origin := match x with QSet _ _ _ _ _ _ => OFn None | _ => OTop end.
+Definition top_k (x : query) : kctx := top_ctx (top_cls_r x).
+Definition top_origin (x : query) : origin := OTop.
 Definition str_toks (n : nat) (x : query) : res (list dtok) :=
   qtoks n (top_k x) (top_origin x) false false false (qalias x) x.
 
@@ -517,9 +517,12 @@ Definition kw_ctx (kw : kwargs) (x : query) : kctx :=
   let qq := match kw_q kw with Some v => v | None => cls_q c end in
   match kw_rest kw with
   | Some (s, a, kwd) =>
+      (* query_alias_quote_char itself is never passed: the first builder (of the top class) fills it in *)
       mk_k {| q := qq; sq := s; aq := a; askw := kwd; dia := cls_dia c; wa := false; wn := false; subq := false; subc := false |} false true
+           (qalias_quote c)
   | None =>
       mk_k {| q := qq; sq := Some "'"; aq := None; askw := false; dia := cls_dia c; wa := false; wn := false; subq := false; subc := false |} true true
+           None
   end.
 Definition kw_origin (kw : kwargs) : origin := match kw_rest kw with Some _ => OTop | None => OFn None end.
 Definition kw_toks (n : nat) (kw : kwargs) (x : query) : res (list dtok) :=
@@ -530,27 +533,30 @@ Definition relabel (o : option cls) (c : cls) : cls := match o with Some c' => c
 
 (* ---------------- the convention each token is expected to follow ---------------- *)
 (* [q0] the quote_char of the outermost call; [s0 a0 k0] the secondary / alias quote and as_keyword of the outermost call *)
-(* [v_adm]: the classes that may supply defaults below a function call (the image of the re-labelling) *)
-Record conv := { v_q : option string; v_sq : option string; v_aq : option string; v_as : bool; v_adm : cls -> bool }.
-Definition conv_of (c : ctx) (adm : cls -> bool) : conv := {| v_q := q c; v_sq := sq c; v_aq := aq c; v_as := askw c; v_adm := adm |}.
-Definition og_adm (v : conv) (og : origin) : bool := match og with OFn (Some c) => v_adm v c | _ => true end.
+(* [v_abs]: the outermost call left secondary_quote_char / alias_quote_char / as_keyword absent (explicit kwargs that give
+   only quote_char), so the first builder fills them in and origins other than [OTop] occur *)
+Record conv := { v_q : option string; v_sq : option string; v_aq : option string; v_as : bool; v_qa : option string;
+                 v_abs : bool }.
+Definition conv_of (k : kctx) : conv :=
+  {| v_q := q (kc k); v_sq := sq (kc k); v_aq := aq (kc k); v_as := askw (kc k); v_qa := k_qaq k; v_abs := k_abs k |}.
+Definition og_adm (v : conv) (og : origin) : bool := match og with OTop => true | _ => v_abs v end.
 Definition og_sq (v : conv) (og : origin) : option string :=
   match og with OTop => v_sq v | OFn None => Some "'" | OFn (Some c) => cls_sq c end.
 Definition og_aq (v : conv) (og : origin) : option string :=
   match og with OTop => v_aq v | OFn None => None | OFn (Some c) => cls_aq c end.
 Definition og_as (v : conv) (og : origin) : bool :=
   match og with OTop => v_as v | OFn None => false | OFn (Some c) => cls_askw c end.
+Definition og_qa (v : conv) (og : origin) : option string :=
+  match og with OTop => v_qa v | OFn None => None | OFn (Some c) => qalias_quote c end.
 
 (* EXACT: what the code does (proved for every token of every statement) *)
 Definition exact_q (v : conv) (t : dtok) : Prop :=
   match snd t with
   | AId RIdent qu _ _ => qu = v_q v
   | AId RAlias qu _ og => qu = or_ostr (og_aq v og) (v_q v)
-  | AId RAliasC qu _ og => qu = or_ostr (og_aq v og) None
-  | AId RAliasQ qu _ _ => qu = v_q v
   | AId RQual qu _ _ => qu = v_q v
-  | AId (RQAlias ci) qu _ _ => qu = or_ostr (qalias_quote ci) (v_q v)
-  | AId RSAlias qu _ og => qu = or_ostr (og_aq v og) (v_q v)
+  | AId (RQAlias _) qu _ og => qu = or_ostr (og_qa v og) (v_q v)
+  | AId RTAlias qu _ _ => qu = v_q v
   | AId RCte qu _ _ => qu = None
   | AStr qu _ og => qu = og_sq v og
   | AAs kw og => kw = og_as v og
@@ -559,7 +565,6 @@ Definition exact_q (v : conv) (t : dtok) : Prop :=
 
 Definition adm_tok (v : conv) (t : dtok) : Prop :=
   match snd t with
-  | AId (RQAlias ci) _ _ og => og_adm v og = true /\ (v_adm v ci = true \/ ci = CQuery)
   | AId _ _ _ og | AStr _ _ og | AAs _ og => og_adm v og = true
   | _ => True
   end.
@@ -571,11 +576,9 @@ Definition strict_tok (v : conv) (qa : option string) (t : dtok) : Prop :=
   match snd t with
   | AId RIdent qu _ _ => qu = v_q v
   | AId RAlias qu _ _ => qu = or_ostr (v_aq v) (v_q v)
-  | AId RAliasC qu _ _ => qu = or_ostr (v_aq v) (v_q v)
-  | AId RAliasQ qu _ _ => qu = or_ostr (v_aq v) (v_q v)
   | AId RQual qu _ _ => qu = or_ostr (v_aq v) (v_q v)
   | AId (RQAlias _) qu _ _ => qu = or_ostr qa (v_q v)
-  | AId RSAlias qu _ _ => qu = or_ostr qa (v_q v)
+  | AId RTAlias qu _ _ => qu = or_ostr qa (v_q v)
   | AId RCte qu _ _ => qu = v_q v
   | AStr qu _ _ => qu = v_sq v
   | AAs kw _ => kw = v_as v
@@ -588,11 +591,9 @@ Definition strict_tokb (v : conv) (qa : option string) (t : dtok) : bool :=
   match snd t with
   | AId RIdent qu _ _ => ostr_eqb qu (v_q v)
   | AId RAlias qu _ _ => ostr_eqb qu (or_ostr (v_aq v) (v_q v))
-  | AId RAliasC qu _ _ => ostr_eqb qu (or_ostr (v_aq v) (v_q v))
-  | AId RAliasQ qu _ _ => ostr_eqb qu (or_ostr (v_aq v) (v_q v))
   | AId RQual qu _ _ => ostr_eqb qu (or_ostr (v_aq v) (v_q v))
   | AId (RQAlias _) qu _ _ => ostr_eqb qu (or_ostr qa (v_q v))
-  | AId RSAlias qu _ _ => ostr_eqb qu (or_ostr qa (v_q v))
+  | AId RTAlias qu _ _ => ostr_eqb qu (or_ostr qa (v_q v))
   | AId RCte qu _ _ => ostr_eqb qu (v_q v)
   | AStr qu _ _ => ostr_eqb qu (v_sq v)
   | AAs kw _ => Bool.eqb kw (v_as v)
@@ -602,21 +603,23 @@ Definition benign_tok (v : conv) (qa : option string) (t : dtok) : bool :=
   match snd t with
   | AId RIdent _ _ _ => true
   | AId RAlias _ _ og => ostr_eqb (or_ostr (og_aq v og) (v_q v)) (or_ostr (v_aq v) (v_q v))
-  | AId RAliasC _ _ og => ostr_eqb (or_ostr (og_aq v og) None) (or_ostr (v_aq v) (v_q v))
-  | AId RAliasQ _ _ _ => ostr_eqb (v_q v) (or_ostr (v_aq v) (v_q v))
   | AId RQual _ _ _ => ostr_eqb (v_q v) (or_ostr (v_aq v) (v_q v))
-  | AId (RQAlias ci) _ _ _ => ostr_eqb (or_ostr (qalias_quote ci) (v_q v)) (or_ostr qa (v_q v))
-  | AId RSAlias _ _ og => ostr_eqb (or_ostr (og_aq v og) (v_q v)) (or_ostr qa (v_q v))
+  | AId (RQAlias _) _ _ og => ostr_eqb (or_ostr (og_qa v og) (v_q v)) (or_ostr qa (v_q v))
+  | AId RTAlias _ _ _ => ostr_eqb (v_q v) (or_ostr qa (v_q v))
   | AId RCte _ _ _ => ostr_eqb None (v_q v)
   | AStr _ _ og => ostr_eqb (og_sq v og) (v_sq v)
   | AAs _ og => Bool.eqb (og_as v og) (v_as v)
   | _ => true
   end.
+(* the documented residue: WITH names are rendered bare by every class; a table alias used as a column qualifier is
+   quoted by quote_char (only Snowflake's alias quote differs from it) *)
+Definition residue_tok (t : dtok) : bool :=
+  match snd t with AId RCte _ _ _ | AId RQual _ _ _ => true | _ => false end.
 
 (* ---------------- erasing quotes and documented vendor differences ---------------- *)
 Inductive erole := EIdent | EAlias | EQAlias | ECte.
 Definition erole_of (r : role) : erole :=
-  match r with RIdent => EIdent | RAlias | RAliasC | RAliasQ | RQual => EAlias | RQAlias _ | RSAlias => EQAlias | RCte => ECte end.
+  match r with RIdent => EIdent | RAlias | RQual => EAlias | RQAlias _ | RTAlias => EQAlias | RCte => ECte end.
 Inductive etok := EText (s : string) | EId (r : erole) (name : string) | EStr (raw : string) | EBool (b : bool).
 Definition erase1 (t : dtok) : list etok :=
   if fst t then [] else
